@@ -309,7 +309,7 @@ theorem renew_round_start (cfg : Cfg) (hs : cfg.skipStale = false) (hd : cfg.del
     have : u + ms cfg.tol - u = ms cfg.tol := by unfold Time at *; omega
     rw [this]; exact hc
   obtain ⟨h1, r, sid, rt, h2, h3, h4, h5, h6, h7⟩ :=
-    roundStep_calm cfg hs hd u st.subs { st with now := u } haw hm hc'
+    roundStep_calm cfg hs hd u st.subs { st with now := u } haw hm (Int.le_refl _) hc'
   exact ⟨h1, r, sid, rt, h2, h3, h4, h5, h6, by rw [h6]; exact h7⟩
 
 /-- **renew_round_step** (the inductive step, for rounds of any length): in a calm round, when the reply of
@@ -323,11 +323,11 @@ theorem renew_round_step (cfg : Cfg) (hs : cfg.skipStale = false) (hd : cfg.delE
     (∃ (r : Req) (sid : Sid) (rt : Time),
         (deliver cfg { st with now := replyAt }).rtrace = .req r :: st.rtrace
         ∧ r.kind = .renew ∧ r.sid = some sid ∧ (sid, rt) ∈ queue ∧ r.t = replyAt
-        ∧ r.t < rnow + ms cfg.tol ∧ r.t < rt ∧ RoundInv cfg (deliver cfg { st with now := replyAt }))
+        ∧ rnow ≤ r.t ∧ r.t < rnow + ms cfg.tol ∧ r.t < rt ∧ RoundInv cfg (deliver cfg { st with now := replyAt }))
     ∨ (∃ X : St, deliver cfg { st with now := replyAt } = runHead cfg (headFuel X) X) := by
   unfold RoundInv at hinv
   rw [ht] at hinv
-  obtain ⟨hfb, hacc, hcalm, hmargin⟩ := hinv
+  obtain ⟨hfb, hacc, hle, hcalm, hmargin⟩ := hinv
   have hpos := calmNext_pos _ _ _ _ hcalm
   unfold deliver
   simp only [ht, hacc, if_true]
@@ -335,12 +335,24 @@ theorem renew_round_step (cfg : Cfg) (hs : cfg.skipStale = false) (hd : cfg.delE
   split
   · rename_i haw
     left
-    obtain ⟨h1, r, sid, rt, h2, h3, h4, h5, h6, h7⟩ := roundStep_calm cfg hs hd rnow queue _ haw hmargin hcalm
-    refine ⟨r, sid, rt, h2, h3, h4, h5, h6, ?_, ?_, h1⟩
+    obtain ⟨h1, r, sid, rt, h2, h3, h4, h5, h6, h7⟩ := roundStep_calm cfg hs hd rnow queue _ haw hmargin hle hcalm
+    refine ⟨r, sid, rt, h2, h3, h4, h5, h6, by rw [h6]; exact hle, ?_, ?_, h1⟩
     · rw [h6]; show replyAt < _; unfold Time at *; omega
     · rw [h6]; show replyAt < _; unfold Time at *; omega
   · right
     exact ⟨_, rfl⟩
+
+/-- **deadline_le_expiry**: the deadline the profile stores when a renewal sent at `r.t` in the round
+    started at `rnow ≤ r.t` is accepted (`rnow + granted timeout`) is never later than the expiry the
+    publisher holds for it (`arrival + granted timeout`, the judge's `expiryOf`) — so "sent before the
+    profile's deadline" implies "arrives before the publisher's expiry" -/
+theorem deadline_le_expiry (cfg : Cfg) (rnow : Time) (r : Req) (h : rnow ≤ r.t) (e : Time)
+    (he : expiryOf cfg.subTimeout r = some e) : rnow + ms (r.tmo.secs cfg) ≤ e := by
+  unfold expiryOf at he
+  cases ht : r.tmo with
+  | sec k => simp only [ht, Option.some.injEq] at he; simp only [Tmo.secs, ms]; unfold Time at *; omega
+  | infinite => simp [ht] at he
+  | absent => simp only [ht, Option.some.injEq] at he; simp only [Tmo.secs, ms]; unfold Time at *; omega
 
 /-- the property's lapse-freedom, as far as it is proved.
 
@@ -352,11 +364,12 @@ theorem renew_round_step (cfg : Cfg) (hs : cfg.skipStale = false) (hd : cfg.delE
     Proved (`_partial`): for every round that starts from a sleep (`wake_margin` ∘ `renew_round_start` ∘
     `renew_round_step`, the latter an induction step valid for rounds of any length) every renewal request is
     sent strictly before `round start + tolerance ≤` the deadline the profile holds for that SID.
-    Missing: (a) the link "deadline held by the profile ≤ expiry held by the publisher" (the deadline is
-    `clock value read before the request + granted timeout`, the expiry is `arrival + granted timeout`; the
-    model does not carry the publisher's table, the run-time judge `lapse:*` checks it on every calm
-    timeline); (b) rounds that start without sleeping (granted timeout `≤ tolerance + previous round's
-    duration`), where the argument needs the publisher's expiry, not the profile's deadline. -/
+    `deadline_le_expiry` links the profile's deadline to the publisher's expiry (`renew_round_step` gives
+    `rnow ≤ r.t` for every request of a calm round).
+    Missing: (a) the composition into one statement over the whole trace with the publisher's table (the
+    model does not carry it; the run-time judge `lapse:*` recomputes it and checks every calm timeline);
+    (b) rounds that start without sleeping (granted timeout `≤ tolerance + previous round's duration`),
+    where the argument needs the publisher's expiry, not the profile's deadline. -/
 theorem renew_before_expiry_partial (st : St) (u : Time) (f : Nat) (st0 : St)
     (hst : st = runHead genCfg f st0) (ht : st.task = .sleeping u)
     (hc : calmNext st.subs.length st.script st.dflt (ms genCfg.tol))
